@@ -9,7 +9,7 @@ from ..cfacts import CUnit, dispatcher_of, call_args, callee, int_value, is_assi
 from ..core import AnalysisError, Report
 from ..linexpr import Env, c_ir, py_ir, to_lin
 from ..pycfg import path_to, run_typestate
-from ..pyfacts import Repo, dispatch_return, dotted, enclosing_handlers, handler_types, norm, walk_no_nested
+from ..pyfacts import Repo, dispatch_return, inline_pure_temps, temp_values, dotted, enclosing_handlers, handler_types, norm, walk_no_nested
 from ..spec import machine as M
 from ..steps import (CLoop, PyLoop, RUN_REL, READER_REL, c_assigned, c_mentions, event_nodes, guard_interval,
                      path_conditions, py_assigned, py_mentions)
@@ -165,7 +165,7 @@ def rule_guards(rep: Report, all_loops: List[Any], repo: Repo) -> None:
                 raise AnalysisError(f'{nm}: no site reporting {which}')
             for nid in nodes:
                 if which == 'LOOPING':
-                    ivj, used_j = guard_interval(loop, nid, IN, 'j', pure=False)
+                    ivj, used_j = guard_interval(loop, nid, IN, 'j', pure=False, only_with={'j', 'ip'})
                     ivf, used_f = _self_flip_exception(loop, nid, IN)
                     okj = _iv_eq(ivj, {loop.roles['ip']: 1, '': 0}, {loop.roles['ip']: 1, '': 0})
                     lo = {loop.roles['ip']: 1, '': 0}
@@ -278,6 +278,33 @@ def _check_output_bit(rep: Report, L: Any, nid: int, nm: str) -> None:
                         branches = arms
                         ir = ('cond', c_ir(ifs['inner'][0], L.cu.src_of), ('sym', arms[0]), ('sym', arms[1]))
                         found = f'{L.cu.src_of(ifs["inner"][0])} ? {arms[0]} : {arms[1]} (via {vname})'
+                # a defaulted local: `v = Py_False; if (C) v = Py_True;` (the default in the declaration or a plain assignment) reads the same
+                if not branches:
+                    body = L.cu.body(L.fname)
+                    all_defs = [y for y in walk(body) if is_assign(y) and L.cu.src_of(y['inner'][0]) == vname]
+                    decl = [y for y in walk(body) if y.get('kind') == 'VarDecl' and y.get('name') == vname and y.get('inner')]
+                    default = None
+                    if decl and len(all_defs) == 1:
+                        default = L.cu.src_of(decl[-1]['inner'][-1])
+                    for ifs in [x for x in walk(body) if x.get('kind') == 'IfStmt' and len(x.get('inner', [])) == 2]:
+                        arm = ifs['inner'][1]
+                        asg = [y for y in walk(arm) if is_assign(y) and L.cu.src_of(y['inner'][0]) == vname]
+                        others = [y for y in walk(arm) if y.get('kind') in ('CallExpr', 'GotoStmt', 'ReturnStmt')]
+                        if len(asg) != 1 or others:
+                            continue
+                        dflt = default
+                        if dflt is None and len(all_defs) == 2 and not decl:
+                            first = [y for y in all_defs if y is not asg[0]]
+                            dflt = L.cu.src_of(first[0]['inner'][1]) if first else None
+                        if dflt is None:
+                            continue
+                        arms = [L.cu.src_of(asg[0]['inner'][1]), dflt]
+                        branches = arms
+                        ir = ('cond', c_ir(ifs['inner'][0], L.cu.src_of), ('sym', arms[0]), ('sym', arms[1]))
+                        found = f'{L.cu.src_of(ifs["inner"][0])} ? {arms[0]} : {arms[1]} (via {vname}, defaulted)'
+            if ir[0] == 'cond' and branches == ['Py_False', 'Py_True']:
+                ir = ('cond', ('un', '!', ir[1]), ir[3], ir[2])
+                branches = ['Py_True', 'Py_False']
             if ir[0] == 'cond' and branches == ['Py_True', 'Py_False']:
                 try:
                     iv = lx.solve(ir[1], var, L.env, unsigned=True)
@@ -474,9 +501,8 @@ def rule_unaligned(rep: Report, repo: Repo, cu: CUnit) -> None:
     cenv = Env({'m.w': {'w': 1}, 'm.ww': {'L': 1}, 'm.word_mask': MASK})
     # --- python side
     dec = repo.func(READER_REL, 'Reader._bit_address_decompose')
-    pdefs = {st.targets[0].id: st.value for st in dec.body
-             if isinstance(st, ast.Assign) and isinstance(st.targets[0], ast.Name)}
-    gw = repo.func(READER_REL, 'Reader.get_word')
+    pdefs = temp_values(dec)                 # named sub-expressions (a mask, a shift amount) are read through
+    gw = inline_pure_temps(repo.func(READER_REL, 'Reader.get_word'))
     # --- C side
     cbody = cu.body('mem_get_word_unaligned')
     cdefs: Dict[str, Any] = {}
@@ -538,13 +564,24 @@ def rule_unaligned(rep: Report, repo: Repo, cu: CUnit) -> None:
     rep.check(p_fault == '(word_address)<<(L)', 'C01.UNALIGNED', 'python:garbage-fault-address',
               f'fault address {p_fault}', f'{READER_REL}:{gm.lineno} Reader._get_memory_word',
               expected='word_address << L')
-    for helper in ('access_check', 'flat_garbage'):
-        found = None
+    # every place of the unit that records a fault address from a WORD address (found by the store, not by the function name)
+    n_fault = 0
+    for helper in cu.funcs:
+        params = set(cu.params(helper))
         for n in walk(cu.body(helper)):
-            if is_assign(n) and cu.src_of(n['inner'][0]) == 'm->error_bit_address':
-                found = lx.canon(c_ir(n['inner'][1], cu.src_of), cenv)
-        rep.check(found == '(word_address)<<(L)', 'C01.UNALIGNED', f'C:{helper}:fault-address',
-                  f'fault address {found}', cu.site(cu.func(helper), helper), expected='word_address << L')
+            if not (is_assign(n) and strip(n['inner'][0]).get('kind') == 'MemberExpr' and strip(n['inner'][0]).get('name') == 'error_bit_address'):
+                continue
+            ir = c_ir(n['inner'][1], cu.src_of)
+            if not (ir[0] == 'bin' and ir[1] in ('<<', '*')):
+                continue                      # a reset to 0 / a bit address passed through (judged by the last-word case above)
+            n_fault += 1
+            found = lx.canon(ir, cenv)
+            base = ir[2]
+            okf = base[0] == 'sym' and base[1] in params and found == f'({base[1]})<<(L)'
+            rep.check(okf, 'C01.UNALIGNED', f'C:{helper}:fault-address', f'fault address {found}', cu.site(n, helper),
+                      expected='<word address parameter> << L')
+    if n_fault < 2:
+        raise AnalysisError(f'C01.UNALIGNED: only {n_fault} word-address fault stores found in the C unit')
 
 
 def _strip_mask(ir: lx.IR, env: Env, MASK: lx.IR) -> lx.IR:
@@ -567,17 +604,47 @@ def rule_widths(rep: Report, repo: Repo, cu: CUnit) -> None:
         params = cu.params(impl)
         wi, li = params.index('width'), params.index('ww')
         seen = set()
-        for sw in [n for n in walk(cu.body(fn)) if n.get('kind') == 'SwitchStmt']:
-            for case in [n for n in walk(sw) if n.get('kind') == 'CaseStmt']:
-                label = int_value(case['inner'][0])
-                call = [c for c in walk(case) if c.get('kind') == 'CallExpr' and callee(c) == impl]
-                if label is None or not call:
+        # every call of the loop body with a literal width: the governing selector value is the case label of the enclosing
+        # switch arm, or the constant K of the enclosing `if (<selector> == K)` arm of an if-chain
+        def governed(root: Dict[str, Any], label: Optional[int], out: List[Tuple[Optional[int], Dict[str, Any], Dict[str, Any]]]) -> None:
+            k = root.get('kind')
+            if k == 'CaseStmt':
+                label = int_value(root['inner'][0])
+                if label is None:
                     raise AnalysisError(f'{fn}: unrecognised case shape')
-                args = call_args(call[0])
-                wv, lv = int_value(args[wi]), int_value(args[li])
-                seen.add(label)
-                rep.check(wv == label and lv == ref.get(label) , 'C01.WIDTHS', f'{fn}:case {label}',
-                          f'passes width={wv}, ww={lv}', cu.site(case, fn), expected=f'width={label}, ww={ref.get(label)}')
+            if k == 'DefaultStmt':
+                label = None
+            if k == 'IfStmt':
+                inner = root['inner']
+                ir = c_ir(inner[0], cu.src_of)
+                kk = None
+                if ir[0] == 'cmp' and ir[1] == ['=='] and len(ir[2]) == 2:
+                    nums = [x for x in ir[2] if x[0] == 'num']
+                    if len(nums) == 1:
+                        kk = nums[0][1]
+                governed(inner[0], label, out)
+                governed(inner[1], kk if kk is not None else label, out)
+                for rest in inner[2:]:
+                    governed(rest, label, out)
+                return
+            if k == 'CallExpr' and callee(root) == impl:
+                out.append((label, root, root))
+            for ch in root.get('inner', []) or []:
+                if isinstance(ch, dict):
+                    governed(ch, label, out)
+        found_calls: List[Tuple[Optional[int], Dict[str, Any], Dict[str, Any]]] = []
+        governed(cu.body(fn), None, found_calls)
+        for label, call, site in found_calls:
+            args = call_args(call)
+            wv, lv = int_value(args[wi]), int_value(args[li])
+            if label is None:
+                if wv is not None:
+                    rep.check(False, 'C01.WIDTHS', f'{fn}:ungoverned literal {wv}', f'a literal width {wv} is passed outside any `== {wv}` arm',
+                              cu.site(site, fn))
+                continue
+            seen.add(label)
+            rep.check(wv == label and lv == ref.get(label), 'C01.WIDTHS', f'{fn}:case {label}',
+                      f'passes width={wv}, ww={lv}', cu.site(site, fn), expected=f'width={label}, ww={ref.get(label)}')
         rep.check(seen == set(ref), 'C01.WIDTHS', f'{fn}:case-set', f'cases {sorted(seen)}', cu.site(cu.func(fn), fn),
                   expected=str(sorted(ref)))
     # Memory_init
